@@ -98,7 +98,17 @@ fn materialise(c: &C03Case) -> Built {
 }
 
 fn probe_path(origin: &Path, p: &Probe) -> PathBuf {
-	let mut b = if p.outside { PathBuf::from("/outside-vh") } else { origin.to_path_buf() };
+	// outside the origin: half of the probes go to a directory whose name has the origin's name as a string
+	// prefix (<root>/o-old next to <root>/o), the others far away
+	let mut b = if !p.outside {
+		origin.to_path_buf()
+	} else if p.comps.len() % 2 == 0 {
+		let mut s = origin.as_os_str().to_owned();
+		s.push("-old");
+		PathBuf::from(s)
+	} else {
+		PathBuf::from("/outside-vh")
+	};
 	for c in &p.comps {
 		b.push(c);
 	}
@@ -327,7 +337,7 @@ fn strategy() -> BoxedStrategy<C03Case> {
 		.prop_flat_map(|al| {
 			let dir = proptest::collection::vec(al.dir(), 0..3);
 			let file = (dir, proptest::bool::weighted(0.12), proptest::collection::vec(al.pattern(0.3), 1..5)).prop_map(|(dir, global, lines)| IgFile { dir, global, lines });
-			let probe = (al.rel_path(4), any::<bool>(), proptest::bool::weighted(0.08)).prop_map(|(comps, is_dir, outside)| Probe { comps, is_dir, outside });
+			let probe = (al.rel_path(4), any::<bool>(), proptest::bool::weighted(0.15)).prop_map(|(comps, is_dir, outside)| Probe { comps, is_dir, outside });
 			(
 				proptest::collection::vec(file, 1..6),
 				proptest::collection::vec(probe, 6..24),
@@ -347,7 +357,7 @@ pub fn check(e: &Engine) {
 		"scoping",
 		LegOpts::det(
 			e.tier.pick(4_000, 80_000),
-			"1-5 ignore files (origin, nested dirs drawn from a 3-name alphabet that half of the time contains the pair test/tests, global) of 1-4 lines from the grammar with 30% negations; 6-23 probes (files and dirs, 8% outside the origin); independent nearest-first evaluator (+ git top-down evaluator to delimit the agreed region) and four metamorphic relations; non-trivial = a probe in a prefix-sibling directory of an ignore file's directory, >=2 files on a probe's chain, or a matching negation",
+			"1-5 ignore files (origin, nested dirs drawn from a 3-name alphabet that half of the time contains the pair test/tests, global) of 1-4 lines from the grammar with 30% negations; 6-23 probes (files and dirs, 15% outside the origin: half of those in a sibling of the origin whose name has the origin's name as a string prefix, half far away); independent nearest-first evaluator (+ git top-down evaluator to delimit the agreed region) and four metamorphic relations; non-trivial = a probe in a prefix-sibling directory of an ignore file's directory, >=2 files on a probe's chain, or a matching negation",
 		),
 		&strategy,
 		&run,
